@@ -21,7 +21,8 @@ import time
 import traceback
 from typing import Any, Dict, List, Optional
 
-from vf.api import Obligation, Skip
+from vf import api
+from vf.api import ModelGap, Obligation, Skip
 
 REPO = os.environ.get("VERIF_REPO", "/repo")
 
@@ -204,6 +205,20 @@ def _analyze(fn, timeout: float, path_timeout: Optional[float]):
     )
 
 
+def _gap_aware(analyze, fn, timeout, path_timeout):
+    """A run in which some path hit a model gap proves nothing about that path:
+    'confirmed' (and a vacuous twin) is downgraded to 'unknown'."""
+    n0 = len(api.GAPS)
+    r = analyze(fn, timeout, path_timeout)
+    gaps = sorted(set(api.GAPS[n0:]))
+    if gaps:
+        r["gaps"] = gaps
+        if r["verdict"] in ("confirmed", "pre_unsat", "unknown"):
+            r["verdict"] = "unknown"
+            r["message"] = "model gap: " + "; ".join(gaps[:4])
+    return r
+
+
 def _trace_functions(callable_, repo_prefix: str) -> List[str]:
     seen = set()
 
@@ -231,6 +246,8 @@ def concrete_run(ob: Obligation, part: Dict[str, Any], args: Dict[str, Any]):
         r = ob.fn(**part, **args)
     except Skip:
         return "skip", None
+    except ModelGap as e:
+        return "model-gap", str(e)
     except Exception as e:  # noqa: BLE001
         return "violation", f"exception: {type(e).__name__}: {e}"
     if r is None:
@@ -267,12 +284,12 @@ def run(module: str, obname: str, part_idx: int, tier: str, known_ids: List[str]
         def call_twin(**kw):
             try:
                 ob.fn(**part, **kw)
-            except Skip:
+            except (Skip, ModelGap):
                 return True
             return False
 
         fn, argnames = _make_wrapper(ob, part, tmpdir, "twin", call_twin)
-        tw = _analyze(fn, min(timeout, 60.0), ob.path_timeout)
+        tw = _gap_aware(_analyze, fn, min(timeout, 60.0), ob.path_timeout)
         witness = _parse_call(tw.get("message", ""), argnames) if tw["verdict"] == "refuted" else None
         tw["args"] = witness
         runs["twin"] = tw
@@ -287,7 +304,7 @@ def run(module: str, obname: str, part_idx: int, tier: str, known_ids: List[str]
             def call(**kw):
                 try:
                     v = ob.fn(**part, **kw)
-                except Skip:
+                except (Skip, ModelGap):
                     return True
                 if mode == "main":
                     return v is None
@@ -313,7 +330,7 @@ def run(module: str, obname: str, part_idx: int, tier: str, known_ids: List[str]
                 ob, part, tmpdir, mode.replace(":", "_").replace("-", "_"), mk_call(mode)
             )
             tmo = timeout if not mode.startswith("region:") else min(timeout, 90.0)
-            r = _analyze(fn, tmo, ob.path_timeout)
+            r = _gap_aware(_analyze, fn, tmo, ob.path_timeout)
             if r["verdict"] == "refuted":
                 args = _parse_call(r["message"], argnames)
                 r["args"] = args
